@@ -308,6 +308,7 @@ class Schema:
         IMP_TYPE_LOOKUP = {
             Container.MAP: "dict",
             Container.LIST: "list",
+            Container.CONTAINER: "dict or list",  # e.g. the parent of an integer key
         }
 
         if from_path is None:
